@@ -158,6 +158,12 @@ func VerifC11Map() {
 		s.tempoChanges = append(s.tempoChanges, &TempoChange{AbsTicks: at, BPM: float64(60000000) / float64(us)})
 		ticks[i], uss[i] = at, us
 	}
+	if zz.Param("prequery") == 1 {
+		// the answer must not depend on what was asked before (any earlier query on the same value)
+		t0 := int64(zz.U32("earlier-query"))
+		zz.Assume(t0 <= at+65535)
+		s.TimeAt(t0)
+	}
 	t1 := int64(zz.U32("query"))
 	zz.Assume(t1 <= at+65535)
 	got := s.TimeAt(t1)
@@ -180,6 +186,37 @@ func VerifC11Map() {
 		t2 := t1 + int64(zz.U16("later"))
 		got2 := s.TimeAt(t2)
 		zz.Assert(got2 >= got, "map:monotone")
+	}
+	zz.Reach("end")
+}
+
+// VerifC11File: the tempo map as the reader collects it: a two-track file of format 1 or 2 with the tempo event
+// (250000 us per quarter) in either track after a symbolic delta and a symbolic number of preceding events.
+func VerifC11File() {
+	const q = 480
+	var format uint16 = 1
+	if zz.Choice("format", 2) == 1 {
+		format = 2
+	}
+	d1, d2 := zz.U8("delta1")&0x7F, zz.U8("delta2")&0x7F
+	tempoTrack := []byte{d1, 0xC0, zz.U8("prog") & 0x7F, d2, 0xFF, 0x51, 0x03, 0x03, 0xD0, 0x90, 0x00, 0xFF, 0x2F, 0x00}
+	noteTrack := []byte{0x00, 0x90, 0x3C, 0x40, 0x10, 0x80, 0x3C, 0x00, 0x00, 0xFF, 0x2F, 0x00}
+	file := c02header(format, 2, q)
+	if zz.Choice("tempo-track", 2) == 0 {
+		file = append(append(file, c02chunk("MTrk", tempoTrack)...), c02chunk("MTrk", noteTrack)...)
+	} else {
+		file = append(append(file, c02chunk("MTrk", noteTrack)...), c02chunk("MTrk", tempoTrack)...)
+	}
+	s, err, panicked := c02read(file)
+	zz.Assert(!panicked && err == nil && s != nil, "file:read-ok")
+	if panicked || err != nil || s == nil {
+		return
+	}
+	tcs := s.TempoChanges()
+	zz.Assert(len(tcs) == 1, "file:one-tempo-change-collected")
+	if len(tcs) == 1 {
+		zz.Assert(tcs[0].AbsTicks == int64(d1)+int64(d2), "file:tempo-change-at-its-absolute-tick")
+		zz.Assert(tcs[0].BPM == 240, "file:tempo-value")
 	}
 	zz.Reach("end")
 }
